@@ -112,6 +112,17 @@ def exotic_cases():
             if ik == 'nested-generic' and sk == 'all':
                 pass
             out.append(Case('C01|exotic|%s|%s' % (ik, sk), it.format(A=a, VD='#[educe(Default)] ' if 'Default' in a else ''), {'item': ik, 'traits': sk}, expect='accept', run=False, depth=2))
+    # several Into targets, each taken from its own field through a conversion that exists for that pair only
+    conv = [('String', "&'static str"), ('u16', 'u8'), ('u64', 'u32'), ('W', 'u16'), ('Vec<u8>', "&'static [u8; 2]"), ('f64', 'f32')]
+    for r in (2, 3, 4):
+        for sub in itertools.combinations(conv, r):
+            for perm in (sub, sub[::-1]):
+                tl = ''.join('#[educe(Into(%s))]\n' % t for t, _ in perm)
+                fs = ', '.join('#[educe(Into(%s))] f%d: %s' % (t, i, ft) for i, (t, ft) in enumerate(sub))
+                tag = '+'.join(t for t, _ in perm)
+                out.append(Case('C01|into-multi|struct|%s' % tag, '#[derive(Educe)]\n%spub struct Ty { %s }\n' % (tl, fs), {'targets': tag}, expect='accept', run=False, depth=r))
+                out.append(Case('C01|into-multi|enum|%s' % tag, '#[derive(Educe)]\n%spub enum Ty { A { %s }, B(%s) }\n' % (tl, fs, fs.replace('f0: ', '').replace('f1: ', '').replace('f2: ', '').replace('f3: ', '')),
+                                {'targets': tag}, expect='accept', run=False, depth=r))
     # #[repr] x discriminants on enums with every order-related trait
     reprs = [None, 'C', 'u8', 'i8', 'u16', 'i16', 'u32', 'i32', 'u64', 'i64', 'usize', 'isize', 'C, u8', 'align(2)', 'align(8), u16', 'u128', 'i128']
     bound = {'u8': '255', 'i8': '-128', 'u16': '65535', 'i16': '-32768', 'u32': '4294967295', 'i32': '-2147483648', 'u64': '18446744073709551615', 'i64': '-9223372036854775808',
@@ -166,7 +177,7 @@ def generate(tier):
     for m in BEHAVIOURAL:
         mod = importlib.import_module('vf.props.' + m)
         for c in mod.generate('quick'):
-            if tier == 'quick' and c.depth > 1:
+            if tier == 'quick' and c.depth > 2:
                 continue
             cases.append(Case('C01|%s' % c.key, c.body, c.spec, expect=c.expect, run=False, depth=c.depth))
     seen, out = set(), []
@@ -205,7 +216,7 @@ def check(v, tier):
     for c in cases[::step][:8]:
         v.sample({'key': c.key, 'program': c.body[:1200]})
     if tier == 'quick':
-        v.cap('quick tier: all 4095 trait subsets on two canonical shapes only (sizes 1, 2 and all on the other seven); behavioural request spaces restricted to at most one deviation from the plain derive')
+        v.cap('quick tier: all 4095 trait subsets on two canonical shapes only (sizes 1, 2 and all on the other seven); behavioural request spaces restricted to at most two deviations from the plain derive')
     guard(len(cases) > 8000, 'too few C01 states')
     return v.finish('(a) trait dimension: every non-empty subset of the 12 traits (of the traits a shape supports) on canonical shapes {generic struct, generic two-variant enum; thorough: + tuple struct, '
                     'unit struct, single-variant enum, empty enum, enum with unit variants, struct with lifetime / bounded type / const parameters and a where-clause, union}, with the markers each trait '
